@@ -23,6 +23,18 @@ class MDSDRV_Data_Test
 			}
 			return out;
 		}
+		// pitch_map in id order: <id>:<1 = extended form>:<data bank index>
+		static std::string peg(MDSDRV_Data& d)
+		{
+			std::string out;
+			char buf[64];
+			for(auto& kv : d.pitch_map)
+			{
+				snprintf(buf, sizeof buf, "%s%d:%d:%d", out.empty() ? "" : ",", kv.first, d.pitch_extend.count(kv.first) ? 1 : 0, (int)kv.second);
+				out += buf;
+			}
+			return out.empty() ? "-" : out;
+		}
 };
 
 // friend name declared in mdsdrv.h: read access to the converter's private tables
@@ -69,6 +81,7 @@ class MDSDRV_Converter_Test
 			}
 			if(u.empty()) out += "-";
 			out += " ins=" + MDSDRV_Data_Test::ins(c.data);
+			out += " peg=" + MDSDRV_Data_Test::peg(c.data);
 			return out;
 		}
 };
@@ -86,7 +99,11 @@ static std::string err_class(const std::string& m)
 	return "player:" + msg_token(m.c_str());
 }
 
-// tokens: V:<text> (#volume), I:<id>=<psg|fm>:<k>[:<expected index>], P:<id>=<w>,<w>..., T<id>:events
+// tokens: V:<text> (#volume), I:<id>=<psg|fm>:<k>[:<expected index>], P:<id>=<w>,<w>..., T<id>:events,
+// M:<id>=<c|x|l|v>:<k>[:<expected index>] = a pitch envelope definition `@M<id>`: c = one node `<k%100>` (compact form),
+// x = a slide `0><1+k%100>:1` too steep for the compact form (add_pitch_envelope throws invalid_argument, the
+// extended form is taken), l = two nodes with a loop mark `<k%100> | <k%50>:<1+k%7>` (compact), v = the vibrato macro
+// `V0:1:<2+k%5>` (three slides, all within the compact form)
 void setup_conv_song(Song& song, const std::vector<std::string>& toks)
 {
 	std::vector<std::string> rest = build_song(song, toks);
@@ -111,6 +128,21 @@ void setup_conv_song(Song& song, const std::vector<std::string>& toks)
 				for(int i = 0; i < 42; i++) val += " " + std::to_string(i == 0 ? k % 8 : (i == 7 ? k % 128 : 0));
 			}
 			song.add_tag_list("@" + id, val);
+		}
+		else if(t.compare(0, 2, "M:") == 0)
+		{
+			size_t eq = t.find('=');
+			std::string id = t.substr(2, eq - 2);
+			std::vector<std::string> f;
+			std::istringstream is(t.substr(eq + 1));
+			std::string x;
+			while(std::getline(is, x, ':')) f.push_back(x);
+			int k = atoi(f.at(1).c_str());
+			std::string key = "@m" + id;
+			if(f[0] == "x") song.add_tag_list(key, "0>" + std::to_string(1 + k % 100) + ":1");
+			else if(f[0] == "l") song.add_tag_list(key, std::to_string(k % 100) + " | " + std::to_string(k % 50) + ":" + std::to_string(1 + k % 7));
+			else if(f[0] == "v") song.add_tag_list(key, "V0:1:" + std::to_string(2 + k % 5));
+			else song.add_tag_list(key, std::to_string(k % 100));
 		}
 		else if(t.compare(0, 2, "P:") == 0)
 		{
@@ -165,3 +197,6 @@ HANDLER("convo", h_convo);
 // convox: the same request, for songs beyond the reach of the Lean model of the optimiser (see optx)
 static Registrar reg_convox("convox", h_convo);
 static Registrar reg_convwf("convwf", h_conv);
+// convwfo / convwfox <min_score> tokens...: C03 on optimised songs (optimise, convert; judged by the well-formedness oracle)
+static Registrar reg_convwfo("convwfo", h_convo);
+static Registrar reg_convwfox("convwfox", h_convo);
